@@ -77,7 +77,9 @@ def c15_zero_row_logical_bool_result(w):
 def c15_zero_row_logical_uninitialised(w):
     k = w['klass']
     return (w['what'] == 'zero_row_logical_out_not_written' and k.get('fn') in ('all', 'any') and k.get('nrows') == '0'
-            and k.get('axis') == 0 and k.get('layout') == 'multi' and k.get('has_2d_block') is True)
+            and k.get('axis') == 0 and k.get('layout') == 'multi' and k.get('has_2d_block') is True
+            # the bool-returning shortcut for empty arrays of every other kind was repaired (4463d33); what remains is the NaT branch
+            and bool(k.get('unwritten_kinds')) and set(k.get('unwritten_kinds')) <= set('Mm'))
 
 
 @predicate
